@@ -9,25 +9,27 @@
 (* One behaviour = one update of `sub` from one PRIOR MANIFEST STATE; the  *)
 (* initial states enumerate the prior states C03's quantifier lists.       *)
 (* Switches reproduce historical defects: SaveSameDirFirst (F9),           *)
-(* SeedAllGoverning (F8), RemoveByIdentity (F14, still present in /repo).  *)
+(* SeedAllGoverning (F8), RemoveByIdentity (F14, still present in /repo),  *)
+(* QueueKept (F18), ManifestWins (F23), ForgetUnlinked (F20).              *)
 (***************************************************************************)
 EXTENDS UpdateRef, Json, SequencesExt
 
 CONSTANTS SaveSameDirFirst,   \* TRUE: among Manifests of one directory the later loaded is saved first (fixed)
           SeedAllGoverning,   \* TRUE: stack seeded with every governing Manifest (fixed)
           RemoveByIdentity,   \* TRUE: duplicates removed by identity (the repair that cannot be committed)
+          QueueKept,          \* TRUE: merging hashes into the kept entry queues ITS Manifest too (fixed, F18)
+          ManifestWins,       \* TRUE: a MANIFEST entry survives de-duplication against a plain one (fixed, F23)
+          ForgetUnlinked,     \* TRUE: a Manifest whose MANIFEST entry is dropped is forgotten (fixed, F20)
           Export
 
-Hashes == {"SHA1"}
-HSeq   == <<"SHA1">>
-
-VARIABLES scn,        \* the disk (Glep74 scenario); rewritten by the save steps
+VARIABLES hreq,       \* requested hash names, sorted (<<"SHA1">> or <<"MD5", "SHA1">>)
+          scn,        \* the disk (Glep74 scenario); rewritten by the save steps
           scn0,       \* the prior state, for preservation properties and export
           sub, wm,    \* updated directory; watermark: -1 none, 0 compress all, 1000 compress none
           pc, mem,    \* mem: manifest path -> Seq(entry with field dead)
           order,      \* load order (Seq of manifest paths)
           updated, newmf, stack, edict, walk, fixed, renamed, savequeue, ver, result
-vars == <<scn, scn0, sub, wm, pc, mem, order, updated, newmf, stack, edict, walk, fixed, renamed, savequeue, ver, result>>
+vars == <<hreq, scn, scn0, sub, wm, pc, mem, order, updated, newmf, stack, edict, walk, fixed, renamed, savequeue, ver, result>>
 
 (* ---------------------------------------------------------------------- *)
 (* helpers on scenarios                                                     *)
@@ -69,19 +71,33 @@ AEnts(st) ==
 XLocs  == {"none", "top", "dm", "both", "extra"}
 DMStates == {"absent", "reg", "regstale", "unreg", "unreginvalid"}
 
-Scenario(ast, xloc, xstale, dms, gone) ==
+(* further arrangements (one at a time, on top of the above):                                   *)
+(*   ignd       top-level `IGNORE d` while d/Manifest is referenced (F20)                         *)
+(*   mfdata     d/Manifest also listed as DATA, BEFORE its MANIFEST entry (F23); mfdata2: after   *)
+(*   hashsplit  d/x listed in d/Manifest with SHA1 and in the top-level one with MD5, both        *)
+(*              requested (F18)                                                                   *)
+Extras == {"none", "ignd", "mfdata", "mfdata2", "hashsplit"}
+MData(p, k) == En("DATA", p, 100 + k, << <<"SHA1", VerName(k)>> >>)
+
+ScenarioX(ast, xloc, xstale, dms, gone, extra) ==
     LET xc == IF xstale THEN "c1" ELSE "c0"
         hasDM == dms # "absent"
         hasDX == xloc = "extra" /\ dms \in {"reg", "regstale"}
         dxEnts == << Ok(<<"x">>, xc) >>
         dmEnts == (IF xloc \in {"dm", "both"} THEN << Ok(<<"x">>, xc) >> ELSE <<>>)
                   \o (IF hasDX THEN << MRef(<<"Manifest.extra">>, 0) >> ELSE <<>>)
+        mref == IF dms = "reg" THEN << MRef(<<"d", "Manifest">>, 0) >>
+                ELSE IF dms = "regstale" THEN << MRef(<<"d", "Manifest">>, 9) >> ELSE <<>>
         topEnts == AEnts(ast)
-                   \o (IF xloc \in {"top", "both"} THEN << Ok(<<"d", "x">>, xc) >> ELSE <<>>)
+                   \o (IF extra = "ignd" THEN << En("IGNORE", <<"d">>, 0, <<>>) >> ELSE <<>>)
+                   \o (IF xloc \in {"top", "both"}
+                       THEN << IF extra = "hashsplit" THEN En("DATA", <<"d", "x">>, 3, << <<"MD5", xc>> >>)
+                               ELSE Ok(<<"d", "x">>, xc) >> ELSE <<>>)
                    \o << Ok(<<"da", "y">>, "c0") >>
                    \o (IF gone THEN << Ok(<<"d", "gone">>, "c0") >> ELSE <<>>)
-                   \o (IF dms = "reg" THEN << MRef(<<"d", "Manifest">>, 0) >>
-                       ELSE IF dms = "regstale" THEN << MRef(<<"d", "Manifest">>, 9) >> ELSE <<>>)
+                   \o (IF extra = "mfdata" THEN << MData(<<"d", "Manifest">>, 0) >> ELSE <<>>)
+                   \o mref
+                   \o (IF extra = "mfdata2" THEN << MData(<<"d", "Manifest">>, 0) >> ELSE <<>>)
                    \o << En("DIST", <<"dist.tar">>, 7, << <<"SHA1", "jdist">> >>) >>
     IN [ nodes |-> << MfNode(Top, 0), FileNd(<<"a">>, "c0", 3), DirNd(<<"d">>, 11), FileNd(<<"d", "x">>, "c0", 3),
                       DirNd(<<"da">>, 12), FileNd(<<"da", "y">>, "c0", 3) >>
@@ -93,8 +109,15 @@ Scenario(ast, xloc, xstale, dms, gone) ==
                  \o (IF hasDX THEN << Mf(DX, dxEnts, TRUE, TRUE) >> ELSE <<>>),
          top |-> Top ]
 
+Scenario(ast, xloc, xstale, dms, gone) == ScenarioX(ast, xloc, xstale, dms, gone, "none")
 Scenarios == { Scenario(a, xl, xs, dms, g) :
                  a \in AStates, xl \in XLocs, xs \in BOOLEAN, dms \in DMStates, g \in BOOLEAN }
+(* the further arrangements need a referenced d/Manifest (hashsplit: d/x listed in both)          *)
+ScenariosX(extra) ==
+    { ScenarioX(a, xl, xs, dms, g, extra) :
+        a \in {"none", "ok", "dupeq"},
+        xl \in (IF extra = "hashsplit" THEN {"both"} ELSE XLocs \ {"extra"}),
+        xs \in BOOLEAN, dms \in {"reg", "regstale"}, g \in BOOLEAN }
 
 (* ---------------------------------------------------------------------- *)
 (* helpers on the loader's memory                                            *)
@@ -115,12 +138,16 @@ Before(a, b) ==
 SortedMfs(S) == SortSeq(SetToSeq(S), Before)
 
 TrueEntry(e, f) ==     \* update_entry_for_path: size and digests of the file now on disk, requested hashes
-    LET n == NodeAt(scn, f) IN [e EXCEPT !.size = n.size, !.ck = [k \in DOMAIN HSeq |-> <<HSeq[k], n.cid>>],
-                                !.hx = [k \in DOMAIN HSeq |-> <<HSeq[k], n.cid>>]]
+    LET n == NodeAt(scn, f) IN [e EXCEPT !.size = n.size, !.ck = [k \in DOMAIN hreq |-> <<hreq[k], n.cid>>],
+                                !.hx = [k \in DOMAIN hreq |-> <<hreq[k], n.cid>>]]
 
 Init ==
-    /\ scn0 \in Scenarios /\ scn = scn0
-    /\ sub \in { <<>>, <<"d">> } /\ wm \in {-1, 0, 1000}
+    /\ \/ scn0 \in Scenarios /\ hreq = <<"SHA1">> /\ sub \in { <<>>, <<"d">> }
+       \/ \E x \in {"mfdata", "mfdata2"} : scn0 \in ScenariosX(x) /\ hreq = <<"SHA1">> /\ sub \in { <<>>, <<"d">> }
+       \/ scn0 \in ScenariosX("ignd") /\ hreq = <<"SHA1">> /\ sub = <<>>
+       \/ scn0 \in ScenariosX("hashsplit") /\ hreq = <<"MD5", "SHA1">> /\ sub \in { <<>>, <<"d">> }
+    /\ scn = scn0
+    /\ wm \in {-1, 0, 1000}
     /\ pc = "load" /\ mem = [x \in {} |-> <<>>] /\ order = <<>> /\ updated = {} /\ newmf = {} /\ stack = <<>>
     /\ edict = [x \in {} |-> <<>>] /\ walk = <<>> /\ fixed = {} /\ renamed = [x \in {} |-> <<>>]
     /\ savequeue = <<>> /\ result = "running"
@@ -147,7 +174,7 @@ Load ==
        ELSE /\ order' = ld
             /\ mem' = [mp \in SeqSet(ld) |-> [k \in DOMAIN MfAt(scn, mp).entries |-> WithDead(MfAt(scn, mp).entries[k])]]
             /\ pc' = "unreg" /\ UNCHANGED result
-    /\ UNCHANGED <<scn, scn0, sub, wm, updated, newmf, stack, edict, walk, fixed, renamed, savequeue, ver>>
+    /\ UNCHANGED <<hreq, scn, scn0, sub, wm, updated, newmf, stack, edict, walk, fixed, renamed, savequeue, ver>>
 
 (* ---- load_unregistered_manifests: standard-named files under sub that are not loaded yet       *)
 ScanUnregistered ==
@@ -161,7 +188,7 @@ ScanUnregistered ==
           /\ order' = order \o SetToSeq(good)
           /\ newmf' = good
     /\ pc' = "dedup"
-    /\ UNCHANGED <<scn, scn0, sub, wm, updated, stack, edict, walk, fixed, renamed, savequeue, ver, result>>
+    /\ UNCHANGED <<hreq, scn, scn0, sub, wm, updated, stack, edict, walk, fixed, renamed, savequeue, ver, result>>
 
 (* ---- get_deduplicated_file_entry_dict_for_update                                                *)
 (* entries visited Manifest by Manifest (iteration order), each Manifest's entries in file order   *)
@@ -186,6 +213,13 @@ DedupFold(lst, m, out, upd) ==   \* -> [m, out, upd, bad]
          ELSE LET kx == out[f]  kept == m[kx[1]][kx[2]] IN
               IF ~(kept.tag = e.tag \/ (kept.tag \in CompatTags /\ e.tag \in CompatTags))
               THEN [m |-> m, out |-> out, upd |-> upd, bad |-> TRUE]
+              ELSE IF ManifestWins /\ e.tag = "MANIFEST" /\ kept.tag # "MANIFEST"
+              THEN \* the MANIFEST entry takes over (union of the hashes, its own values win); the plain
+                   \* entry is dropped from ITS Manifest
+                   LET e2 == [e EXCEPT !.ck = MergeCk(kept.ck, e.ck), !.hx = MergeCk(kept.ck, e.ck)]
+                       m1 == [m EXCEPT ![x[1]][x[2]] = e2]
+                       m2 == [m1 EXCEPT ![kx[1]][kx[2]].dead = TRUE]
+                   IN DedupFold(Tail(lst), m2, (f :> x) @@ out, upd \cup {x[1], kx[1]})
               ELSE LET kept2 == [kept EXCEPT !.ck = MergeCk(kept.ck, e.ck), !.hx = MergeCk(kept.ck, e.ck)]
                        m1 == [m EXCEPT ![kx[1]][kx[2]] = kept2]
                        \* list.remove(e): the first entry of THAT Manifest comparing equal to e
@@ -194,14 +228,15 @@ DedupFold(lst, m, out, upd) ==   \* -> [m, out, upd, bad]
                                      /\ \A i \in 1..(j - 1) : m1[x[1]][i].dead \/ Strip(m1[x[1]][i]) # Strip(e)
                        victim == IF RemoveByIdentity THEN x[2] ELSE firsteq
                        m2 == [m1 EXCEPT ![x[1]][victim].dead = TRUE]
-                   IN DedupFold(Tail(lst), m2, out, upd \cup {x[1]})
+                   IN DedupFold(Tail(lst), m2, out,
+                                upd \cup {x[1]} \cup (IF QueueKept /\ e.tag # "IGNORE" THEN {kx[1]} ELSE {}))
 
 Dedup ==
     /\ pc = "dedup"
     /\ LET r == DedupFold(EntryList, mem, [x \in {} |-> <<>>], updated) IN
        IF r.bad THEN Fail("incompatible") /\ UNCHANGED <<mem, edict, updated>>
        ELSE /\ mem' = r.m /\ edict' = r.out /\ updated' = r.upd /\ pc' = "seed" /\ UNCHANGED result
-    /\ UNCHANGED <<scn, scn0, sub, wm, order, newmf, stack, walk, fixed, renamed, savequeue, ver>>
+    /\ UNCHANGED <<hreq, scn, scn0, sub, wm, order, newmf, stack, walk, fixed, renamed, savequeue, ver>>
 
 (* ---- seed the governing-Manifest stack, start the walk                                           *)
 Seed ==
@@ -209,7 +244,7 @@ Seed ==
     /\ LET gov == SortedMfs({ mp \in DOMAIN mem : IsPfx(Dir(mp), sub) }) IN     \* most specific first
        stack' = IF SeedAllGoverning THEN Reverse(gov) ELSE << gov[1] >>
     /\ walk' = <<sub>> /\ pc' = "scan"
-    /\ UNCHANGED <<scn, scn0, sub, wm, mem, order, updated, newmf, edict, fixed, renamed, savequeue, ver, result>>
+    /\ UNCHANGED <<hreq, scn, scn0, sub, wm, mem, order, updated, newmf, edict, fixed, renamed, savequeue, ver, result>>
 
 (* ---- one directory of the walk                                                                   *)
 RECURSIVE PopStack(_, _)
@@ -269,17 +304,24 @@ ScanDir ==
                        /\ updated' = pl.upd /\ stack' = r.st
                        /\ walk' = SetToSeq(desc) \o Tail(walk)
                        /\ UNCHANGED <<pc, result>>
-    /\ UNCHANGED <<scn, scn0, sub, wm, order, newmf, fixed, renamed, savequeue, ver>>
+    /\ UNCHANGED <<hreq, scn, scn0, sub, wm, order, newmf, fixed, renamed, savequeue, ver>>
 
 (* ---- entries whose file was not met: removed                                                     *)
 DropVanished ==
     /\ pc = "scan" /\ walk = <<>>
-    /\ LET gone == { f \in DOMAIN edict : mem[edict[f][1]][edict[f][2]].tag # "IGNORE" } IN
-       /\ mem' = [mp \in DOMAIN mem |-> [k \in DOMAIN mem[mp] |->
+    /\ LET gone == { f \in DOMAIN edict : mem[edict[f][1]][edict[f][2]].tag # "IGNORE" }
+           \* Manifests whose MANIFEST entry goes: they lie in an ignored (or hidden) directory
+           unlinked == IF ForgetUnlinked
+                       THEN { f \in gone : mem[edict[f][1]][edict[f][2]].tag = "MANIFEST" } \cap DOMAIN mem
+                       ELSE {}
+           keep == DOMAIN mem \ unlinked
+       IN
+       /\ mem' = [mp \in keep |-> [k \in DOMAIN mem[mp] |->
                      IF \E f \in gone : edict[f] = <<mp, k>> THEN [mem[mp][k] EXCEPT !.dead = TRUE] ELSE mem[mp][k]]]
-       /\ updated' = updated \cup { edict[f][1] : f \in gone }
-    /\ savequeue' = SortedMfs(DOMAIN mem) /\ pc' = "save"
-    /\ UNCHANGED <<scn, scn0, sub, wm, order, newmf, stack, edict, walk, fixed, renamed, ver, result>>
+       /\ updated' = (updated \cup { edict[f][1] : f \in gone }) \ unlinked
+       /\ savequeue' = SortedMfs(keep)
+    /\ pc' = "save"
+    /\ UNCHANGED <<hreq, scn, scn0, sub, wm, order, newmf, stack, edict, walk, fixed, renamed, ver, result>>
 
 (* ---- save_manifests: one Manifest per step                                                       *)
 GzName(mp) == SubSeq(mp, 1, Len(mp) - 1) \o << IF mp[Len(mp)] = "Manifest" THEN "Manifest.gz" ELSE "Manifest.extra.gz" >>
@@ -329,19 +371,26 @@ SaveOne ==
                        /\ updated' = updated \cup {mp}
                        /\ UNCHANGED renamed
           /\ savequeue' = Tail(savequeue)
-    /\ UNCHANGED <<scn0, sub, wm, pc, order, newmf, stack, edict, walk, result>>
+    /\ UNCHANGED <<hreq, scn0, sub, wm, pc, order, newmf, stack, edict, walk, result>>
 
 Finish ==
     /\ pc = "save" /\ savequeue = <<>>
     /\ LET left == (updated \ fixed) \ (DOMAIN renamed \cup {Top}) IN
        result' = IF left = {} THEN "ok" ELSE "internal"          \* "Unlinked but updated Manifests"
     /\ pc' = "done"
-    /\ UNCHANGED <<scn, scn0, sub, wm, mem, order, updated, newmf, stack, edict, walk, fixed, renamed, savequeue, ver>>
+    /\ UNCHANGED <<hreq, scn, scn0, sub, wm, mem, order, updated, newmf, stack, edict, walk, fixed, renamed, savequeue, ver>>
+
+(* which Manifest files are part of the tree is decided by reachability from the top-level one  *)
+(* (the `reg` field of the prior state is only right for the prior state)                         *)
+ReachStep(s, S) == S \cup UNION { { Full(MfAt(s, mp), e) : e \in { x \in Ents(MfAt(s, mp)) : x.tag = "MANIFEST" } }
+                                  : mp \in S \cap MfPaths(s) }
+Reach(s) == ReachStep(s, ReachStep(s, ReachStep(s, {Top})))
+Rereg(s) == [s EXCEPT !.mfs = [i \in DOMAIN s.mfs |-> [s.mfs[i] EXCEPT !.reg = (s.mfs[i].p \in Reach(s))]]]
 
 Done ==
     /\ pc = "done" /\ pc' = "printed"
-    /\ Export => PrintT(ToJson([s0 |-> scn0, sub |-> sub, wm |-> wm, result |-> result, s1 |-> scn]))
-    /\ UNCHANGED <<scn, scn0, sub, wm, mem, order, updated, newmf, stack, edict, walk, fixed, renamed, savequeue, ver, result>>
+    /\ Export => PrintT(ToJson([s0 |-> scn0, sub |-> sub, wm |-> wm, hashes |-> hreq, result |-> result, s1 |-> Rereg(scn)]))
+    /\ UNCHANGED <<hreq, scn, scn0, sub, wm, mem, order, updated, newmf, stack, edict, walk, fixed, renamed, savequeue, ver, result>>
 
 Next == Load \/ ScanUnregistered \/ Dedup \/ Seed \/ ScanDir \/ DropVanished \/ SaveOne \/ Finish \/ Done
 Spec == Init /\ [][Next]_vars
@@ -350,7 +399,7 @@ Spec == Init /\ [][Next]_vars
 (* properties (design level)                                                 *)
 Completed == pc \in {"done", "printed"} /\ result = "ok"
 
-C03_ExactCover == Completed => ExactCover(scn, sub, Hashes)
+C03_ExactCover == Completed => ExactCover(Rereg(scn), sub, SeqSet(hreq))
 C10_NothingBeforeSave == (pc \in {"load", "unreg", "dedup", "seed", "scan"}) => scn = scn0
 C10_FailedWritesNothing == (pc \in {"done", "printed"} /\ result \notin {"ok", "internal"}) => scn = scn0
 C10_Preserved ==
@@ -368,5 +417,5 @@ F14State == \E m \in MfSet(scn0) : \E i \in DOMAIN m.entries : \E j \in DOMAIN m
                /\ i < j /\ m.entries[i].tag = m.entries[j].tag /\ m.entries[i].p = m.entries[j].p
                /\ m.entries[i].size = m.entries[j].size /\ m.entries[i].tag \in FileTagSet
                /\ HashNames(m.entries[i]) \subseteq HashNames(m.entries[j])
-C03_ExactCover_ModuloF14 == (Completed /\ ~F14State) => ExactCover(scn, sub, Hashes)
+C03_ExactCover_ModuloF14 == (Completed /\ ~F14State) => ExactCover(Rereg(scn), sub, SeqSet(hreq))
 =============================================================================
